@@ -4,8 +4,6 @@ evaluation of the symbolic C results there, and replay against the installed lib
 replayed is True only if the INSTALLED library disagrees with the independent big-int oracle of spec/curves.py.  The installed
 .so files were compiled from /repo/src at build time: they do not reflect an edited C file or a mutated temp copy, and the replay
 record says so."""
-import sympy as sp
-
 from spec import curves as C
 from . import poly
 
